@@ -21,6 +21,9 @@ CHECKS = {
  "C08": ("model_checking", "exhaustive enumeration of run_space specifications over a block-template menu against a lazy reference expander; cap promptness by tracemalloc peak and a child process under RLIMIT_AS",
          "Every combination of inline-context templates (sorted/unsorted keys, empty lists, mismatched lengths), source templates (csv/json/yaml/ndjson, select, rename incl. collisions, missing file/column, source mode), block modes, second/third blocks (incl. duplicate keys) and combine modes, each with max_runs in {0,1,n-1,n,n+1,1000}, goes through the YAML loader and expand_run_space and must give the reference's ordered run list or rejection class. Specs expanding to 10^4..10^30 runs must be rejected with the max-runs error within a memory budget that excludes materialisation.",
          "reference expander mc/ref/runspace.py; key-less blocks and a cap of 0 on an empty run space are outside the documented space; memory budget constant 200kB + 400B*(max_runs + list lengths)", "3 C08"),
+ "C06": ("fault_enumeration", "exhaustive fault enumeration: every failure kind at every node index of all short programs x detail levels x output modes, judged by a trace-grammar automaton and the package's JSON schemas",
+         "The program alphabet holds one symbol per failure kind the property lists (processor exception, unresolvable parameter, type gate, undeclared context write, unknown parameter, probe without key, unresolvable processor, KeyboardInterrupt); all programs to length 2-3 (thorough 3-4) put each of them at every node index. Each traced run must leave pipeline_start, one SER per started node in canonical order with canonical upstream edges and correct statuses, exactly one pipeline_end whose status matches the call, schema-valid lines, shared ids, the original exception object, and a flushed and closed file (checked through /proc/self/fd).",
+         "jsonschema Draft 2020-12 with the package's registry; RFC 3339 checked by the harness; reference failure points from mc/ref/interp.py (bound to the implementation by C01)", "3 C06"),
 }
 NA = []
 def main():
